@@ -606,20 +606,29 @@ pub fn run_seq(o: &crate::Opts) {
     // be emptied by the reset like any other), followed by sources that redefine / reference /
     // forward-reference some of its names
     if o.shard == 2 % o.nshards {
-        for (nlabels, reset) in [(5000usize, true), (4000, true), (1200, true), (600, false)] {
+        // (thorough tier: 30,000 labels — the model's symbol table is a list, one such source costs
+        // it about a minute and a half)
+        let mut sizes = vec![(5000usize, true), (4000, true), (1200, true), (600, false)];
+        if o.thorough {
+            sizes.push((30_000, true));
+        }
+        for (nlabels, reset) in sizes {
             let mut big = String::new();
             for k in 0..nlabels {
                 big.push_str(&format!("tbl{} add r0 r0 #0\n", k));
             }
             big.push_str("halt\n");
-            let texts: Vec<String> = vec![
+            let texts: Vec<String> = if nlabels >= 30_000 {
+                // a huge table, then a small source that leaves labels behind, then sources using them
+                vec![big.clone(), "keep halt\nmore halt\n".into(), "lea r0 keep\nmore halt\n".into(), "br tbl7\n".into()]
+            } else { vec![
                 big.clone(),
                 "tbl100 halt\n".into(),
                 "ld r0 tbl100\nhalt\n".into(),
                 "br tbl7\nadd r0 r0 #1\ntbl7 halt\n".into(),
                 big,
                 "lea r1 tbl0\n".into(),
-            ];
+            ] };
             let obs = observe_seq(&mut runner, false, reset, &texts);
             sink.put(&seq_request(false, reset, &texts), &obs);
         }
